@@ -179,11 +179,18 @@ def run(index, rep, tier):
             return False
         return True
     puts = [n for n in cfg.nodes if is_put(n)]
-    rep.floor("R06.5", "results_queue.put sites in worker.run", 2, len(puts))
+    rep.floor("R06.5", "results_queue.put sites in worker.run", 1, len(puts))
     w = cfg.can_reach(cfg.entry, lambda n: n is cfg.exit, avoid=is_put, follow_exc=False, edge_ok=not_kill_edge)
     rep.check(w is None, "R06.5", run_fi.qualname, "exit without results_queue.put", fn_where(run_fi),
               "worker.run: every non-killed path to the normal exit passes results_queue.put",
               "TreeAnalysisWorker.run can finish (kill_received false) without putting a result: the collation loop waits for num_processes results forever")
+    # a put inside the task loop must leave the loop (otherwise the same partial result is sent once per task and merged repeatedly)
+    for pn in puts:
+        heads = [h for l, h in cfg.loops.items() if _inside_loop_of(l, pn.stmt)]
+        again = any(cfg.can_reach(pn, lambda n, h=h: n is h) is not None for h in heads)
+        rep.check(not again, "R06.5", run_fi.qualname, "put repeated per task: " + norm_stmt(pn.stmt)[:60], fn_where(run_fi, pn.stmt),
+                  "worker.run: `%s` is executed at most once (it is outside the task loop or leaves it)" % norm_stmt(pn.stmt)[:50],
+                  "TreeAnalysisWorker.run puts a result inside the task loop and keeps looping (`%s`): the same growing tree array is reported once per task and the collation loop merges it repeatedly / counts it as several workers" % norm_stmt(pn.stmt)[:60])
     # put inside the task loop must not be the only one: the final put must be outside any loop
     final_puts = [n for n in puts if not _inside_loop(run_fi.node, n.stmt)]
     rep.check(bool(final_puts), "R06.5", run_fi.qualname, "final put outside task loop", fn_where(run_fi),
@@ -270,6 +277,10 @@ def run(index, rep, tier):
     rep.check(ok, "R06.5", par.qualname, "taxon_labels order", fn_where(par, tl[0] if tl else None),
               "worker namespaces are rebuilt from the master's labels in the master's order (same label -> same bit)",
               "taxon_labels handed to the workers is not the master's namespace in iteration order: split bitmasks from different workers would not be comparable")
+
+
+def _inside_loop_of(loop, stmt):
+    return any(any(x is stmt for x in ast.walk(s_)) for s_ in loop.body)
 
 
 def _inside_loop(fn_node, stmt):
